@@ -412,6 +412,11 @@ void* jv_wk_sk_barray(const void* sk) { return static_cast<const wk::SecretKey*>
 /* what the Go wrapper does after set_length: attach a freshly allocated array, touch nothing else */
 void jv_wk_sk_set_barray(void* sk, void* barray) { static_cast<wk::SecretKey*>(sk)->b = static_cast<wk::FreeSlot*>(barray); }
 void jv_wk_params_set_harray(void* p, void* harray) { static_cast<wk::Params*>(p)->h = static_cast<G1*>(harray); }
+/* a caller re-uses a SecretKey object for a new result: the struct still holds the previous key (elements, l, flags); the array pointer is the caller's */
+void jv_wk_sk_stale_from(void* dst, const void* src, int l) {
+    wk::SecretKey* d = static_cast<wk::SecretKey*>(dst); const wk::SecretKey* s = static_cast<const wk::SecretKey*>(src);
+    wk::FreeSlot* keep = d->b; memcpy(static_cast<void*>(d), static_cast<const void*>(s), sizeof(*d)); d->b = keep; d->l = l;
+}
 void jv_wk_sk_set_l(void* sk, int l) { static_cast<wk::SecretKey*>(sk)->l = l; }
 void jv_wk_sk_set_bidx(void* sk, int i, uint32_t idx) { static_cast<wk::SecretKey*>(sk)->b[i].idx = idx; }
 
